@@ -674,13 +674,15 @@ func (ssc *defaultStatefulSetControl) updateControllerRevision(revision *kubeapp
 		if clone.Revision == newRevision {
 			return nil
 		}
-		clone.Revision = newRevision
-		updated, updateErr := ssc.csAppsV1.ControllerRevisions(clone.Namespace).Update(context.TODO(), clone, metav1.UpdateOptions{})
+		// Set the new Revision on a copy: clone must keep describing what is
+		// stored, otherwise a retry after a failed update (whose re-read failed
+		// as well) would take the check above for success.
+		toUpdate := clone.DeepCopy()
+		toUpdate.Revision = newRevision
+		updated, updateErr := ssc.csAppsV1.ControllerRevisions(clone.Namespace).Update(context.TODO(), toUpdate, metav1.UpdateOptions{})
 		if updateErr == nil {
-			return nil
-		}
-		if updated != nil {
 			clone = updated
+			return nil
 		}
 		if updated, err := ssc.csAppsV1.ControllerRevisions(clone.Namespace).Get(context.TODO(), clone.Name, metav1.GetOptions{}); err == nil {
 			// make a copy so we don't mutate the shared cache
